@@ -52,6 +52,14 @@ Holds(r) ==
             ELSE r.res = "ok" /\ <<r.out[1], r.out[2], r.out[3], r.out[4]>> = ViewAlgebra(all, A, B)
                  /\ r.out[5] = ViewIds(all, A) /\ r.out[6] = <<A \cap B = {}>>
                  /\ r.out[7] = <<Cardinality(A)>>
+    [] r.fn = "stat_summaries" ->
+         LET S == FromJ(r.st)
+             d == IF r.k = 0 THEN SeqDegree(S) ELSE SeqSize(S)
+         IN IF ~Integrity(S) \/ d = <<>> THEN TRUE
+            ELSE r.res = "ok" /\ REq(r.out[1], MedianOf(d)) /\ r.out[2] = <<ModeOf(d)>> /\ REq(r.out[3], VarianceOf(d))
+                 /\ REq(r.out[4], RawMoment(d, 2)) /\ REq(r.out[5], RawMoment(d, 3)) /\ REq(r.out[6], CentralMoment(d, 2))
+                 /\ REq(r.out[7], CentralMoment(d, 3)) /\ <<r.out[8], r.out[9]>> = UniqueCounts(d)
+                 /\ REq(r.out[10], VarianceOf(d))
     [] OTHER -> FALSE
 
 Verdict(r) == IF r.anom # <<>> THEN <<"X01:anomaly." \o r.anom[1]>>
